@@ -58,6 +58,52 @@ def showClause (c : Clause) : String :=
   s!"{encName c.name}/{c.arity} vars=[{" ".intercalate (c.vars.map fun v => (Term.var v).wire)}] " ++
   s!"code=[{", ".intercalate (c.code.map showOp)}] raw={c.raw.wire}"
 
+/-- read one instruction of the harness's listing back -/
+def parseOp (s : String) : Option Op :=
+  let (w, rest) := headWord s
+  let t := Term.ofWire rest
+  let piOf : Option Term → Option (String × Nat) := fun
+    | some (.app "/" (.cons (.atom f) (.cons (.int n) .nil))) => some (f, n.toNat)
+    | _ => none
+  let nat : Option Term → Option Nat := fun | some (.int n) => some n.toNat | _ => none
+  match w with
+  | "enter" => some .enter
+  | "exit" => some .exit
+  | "pop" => some .pop
+  | "cut" => some .cut
+  | "call" => (piOf t).map fun (f, n) => .call f n
+  | "get_const" => t.map .getConst
+  | "put_const" => t.map .putConst
+  | "get_var" => (nat t).map .getVar
+  | "put_var" => (nat t).map .putVar
+  | "get_functor" => (piOf t).map fun (f, n) => .getFunctor f n
+  | "put_functor" => (piOf t).map fun (f, n) => .putFunctor f n
+  | "get_list" => (nat t).map .getList
+  | "put_list" => (nat t).map .putList
+  | "get_partial" => (nat t).map .getPartial
+  | "put_partial" => (nat t).map .putPartial
+  | _ => none
+
+/-- read one compiled clause of the harness's listing back: `name/arity vars=[…] code=[…] raw=…` -/
+def parseClause (s : String) : Option Clause :=
+  match s.splitOn " vars=[" with
+  | [na, rest] =>
+    match rest.splitOn "] code=[" with
+    | [vs, rest2] =>
+      match rest2.splitOn "] raw=" with
+      | [code, raw] =>
+        let nm := (na.splitOn "/")
+        let arity := (nm.getLastD "").toNat?
+        let name := decName ("/".intercalate nm.dropLast).toList
+        let vars := (words vs).mapM fun w => match Term.ofWire w with | some (.var v) => some v | _ => none
+        let ops := (if trim code == "" then [] else code.splitOn ", ").mapM parseOp
+        match arity, name, vars, ops, Term.ofWire raw with
+        | some a, some n, some vs, some ops, some r => some { name := n, arity := a, raw := r, vars := vs, code := ops }
+        | _, _, _, _, _ => none
+      | _ => none
+    | _ => none
+  | _ => none
+
 /-- the clause term a compiled clause must denote (spec side): head and the goals of one disjunct -/
 def handler : Handler := fun _ impl =>
   match impl.splitOn " ;;; " with
@@ -88,7 +134,10 @@ def handler : Handler := fun _ impl =>
           | none => [(head, [])]
           | some _ => alts.map fun alt => (head, (seqGoals alt).map fun g =>
               match g with | .var v => Term.a1 "call" (.var v) | g => Rep.abs g)
-        let got := cs.map decompile
+        -- judged on the IMPLEMENTATION's listing (read back), not on the model's
+        let implCs := (compiled.splitOn " ;; ").map parseClause
+        let got := implCs.map fun oc => oc.bind decompile
+        let cs := implCs.filterMap id
         let callableHead := match head with | .atom _ | .app _ _ => true | _ => false
         let verdict :=
           if !callableHead then "-"
@@ -181,6 +230,8 @@ def observeHandler : Handler := fun payload impl =>
           if a ≠ e then "FAIL the clause behaves differently when loaded through Exec and through assertz"
           else if !(impl.startsWith (varsWant ++ " ;;")) then
             "FAIL storing the clause changed the caller's variables: want " ++ varsWant
+          else if field a "call2" ≠ field a "call" then
+            "FAIL calling the predicate with a variant of its head (built through a different constructor path) does not behave as calling it with fresh variables"
           else if field a "clause" = want && field a "retract" = want && (a.splitOn "left=0").length = 2 then "ok"
           else if disj then "FAIL D23 a top-level disjunctive body is stored once per disjunct, each carrying the whole rule"
           else "FAIL clause/2 / retract/1 do not show a variant of the clause in force when it was added: want " ++ want
